@@ -34,3 +34,8 @@ check_C10() {
   build_inpkg c10_udpisolation_verif_test.go
   inpkg_test inpkg TestVerifC10
 }
+
+check_C15() {
+  build_inpkg c15_pinlifetime_verif_test.go
+  inpkg_test inpkg TestVerifC15
+}
